@@ -1,5 +1,7 @@
 """Index / unwrap obligations of the geometry layer (C03.index, C03.table-index, C03.unwrap,
 C11.index, C13.view-offsets)."""
+import re
+
 from ..facts import CheckError
 from ..sym import Sym, atoms, fmt
 from .ranges import Ctx, FLIP, NEG, GETTER_RANGES, strip_widen
@@ -170,6 +172,14 @@ def cropped_row_slices(rep, prog, rule):
                 return e[2] if e[0] == "field" else None
             okk = (fieldname(lo) == "left" and hi_s[0] == "bin" and hi_s[1] == "Add"
                    and strip_widen(hi_s[2]) == strip_widen(lo) and fieldname(hi_s[3]) == "width")
+            if not okk:
+                # other spellings of the same rectangle: the bounds mention only left / width
+                flds_lo = set(re.findall(r"\.(left|top|width|height)\b", fmt(lo)))
+                flds_hi = set(re.findall(r"\.(left|top|width|height)\b", fmt(hi)))
+                if flds_lo == {"left"} and flds_hi == {"left", "width"}:
+                    rep.unk(rule, key, c.at, "row[%s .. %s] (unrecognised spelling of "
+                            "[left, left+width))" % (fmt(lo)[:60], fmt(hi)[:90]))
+                    continue
             if okk:
                 rep.ok(rule, key, c.at, "row[%s .. %s]" % (fmt(lo)[:60], fmt(hi)[:90]))
             else:
